@@ -36,7 +36,8 @@ RULE = ("per-run seed -> knobs + a history of 1-4 writer transactions (adds, gro
         "acceptable generations). 25% of the runs kill the process for real; 15% inject one EIO/ENOSPC (short write) / failing rename / "
         "failing unlink inside commit() and take the crash states of the error path, including the instant after commit() raised. Each run recovers a bounded sample of its captured states (quick <= 40, thorough <= 600, "
         "weighted 3:1 towards commit()/cancel()); runs with fewer captured states are recovered exhaustively."
-        ' 15% of the runs are BufferedWriter lives under capture: every crash state must be the index after a whole number of calls at or after the last explicit commit.')
+        ' 15% of the runs are BufferedWriter lives under capture: every crash state must be the index after a whole number of calls at or after the last explicit commit.'
+        ' In the disk-fault mode 35% of the faults sit in the clean-up after the TOC rename (unlink, rmdir), and the application may answer a failed commit() with cancel(): still exactly old or new.')
 ASSUMPTIONS = ["crash model = kill -9 of the writing process: kernel-visible state survives in full, user-space buffers survive as a prefix no shorter than the last explicit flush; power-loss (no fsync) reordering is outside the property's crash model and not injected",
                "recovery runs in a fresh simulated process that shares nothing with the dead one but the file system",
                "TOC temp files (_MAIN_n.toc.<time>) and the MAIN.tmp directory are not 'segment files': their survival is recorded, not judged"]
